@@ -166,6 +166,19 @@ def tar_cases(tier):
         p = tarmk.pax_header([(b"GNU.sparse.major", b"1"), (b"GNU.sparse.minor", b"0"), (b"GNU.sparse.name", b"sp"), (b"GNU.sparse.realsize", b"100")])
         body = tarmk.pad(m) + b"DATA" * 3
         cases.append(("tar", "gnu-1.0 map %r" % m[:24], p + tarmk.header(b"GNUSparseFile.0/sp", size=len(body), typeflag=b"0") + tarmk.pad(body) + bytes(1024)))
+    # GNU 1.0 maps, position by position: a well-formed map of 1..3 entries in which the k-th number (count, offsets, sizes) is damaged / missing / the
+    # archive ends there (the reader builds its list entry by entry; what it has to release depends on where the error strikes)
+    for nent in (1, 2, 3):
+        nums = [b"%d" % nent] + [x for i in range(nent) for x in (b"%d" % (i * 20), b"5")]
+        p = tarmk.pax_header([(b"GNU.sparse.major", b"1"), (b"GNU.sparse.minor", b"0"), (b"GNU.sparse.name", b"sp"), (b"GNU.sparse.realsize", b"100")])
+        for k in range(len(nums)):
+            for what, rep in (("non-digit", b"x"), ("overflow", b"99999999999999999999999"), ("negative", b"-1"), ("empty", b"")):
+                mp = b"".join(n_ + b"\n" for n_ in nums[:k]) + rep + b"\n" + b"".join(n_ + b"\n" for n_ in nums[k + 1:])
+                for body, how in ((tarmk.pad(mp) + b"D" * 40, "map padded to a record"), (mp + b"D" * 40, "map not padded")):
+                    cases.append(("tar", "gnu-1.0 map of %d entries, number %d %s, %s" % (nent, k, what, how), p + tarmk.header(b"GNUSparseFile.0/sp", size=len(body), typeflag=b"0") + tarmk.pad(body) + bytes(1024)))
+            body = tarmk.pad(b"".join(n_ + b"\n" for n_ in nums[:k])) if k else b""
+            cases.append(("tar", "gnu-1.0 map of %d entries ends before number %d" % (nent, k), p + tarmk.header(b"GNUSparseFile.0/sp", size=len(body), typeflag=b"0") + tarmk.pad(body) + bytes(1024)))
+            cases.append(("tar", "gnu-1.0 map of %d entries, archive ends before number %d" % (nent, k), p + tarmk.header(b"GNUSparseFile.0/sp", size=4096, typeflag=b"0") + body))
     # old GNU sparse: overlapping / descending / beyond-size entries, huge realsize (bounded to 4 GiB + 1)
     for regs, real in (([(0, 512), (256, 512)], 2048), ([(1024, 512), (0, 512)], 2048), ([(4096, 512)], 100), ([(0, 512)], (1 << 32) + 1), ([((1 << 33), 8)], 16), ([(0, 0)], 0)):
         tl = bytearray(167)
